@@ -750,18 +750,20 @@ class CParser:
         if self._peek_type() == "LBRACE" or self._starts_declaration():
             param_decls = None
             if self._starts_declaration():
-                # Old-style parameter declarations declare the parameters,
-                # which live in the body's scope; nothing is declared in the
-                # enclosing (file) scope. They get a scope of their own that
-                # is dropped again before the body; the lookahead past the
-                # list may already have read the body's '{' and pushed its
-                # scope on top.
+                # Old-style parameter declarations declare the parameters
+                # (and whatever else they declare, e.g. enumerators) in the
+                # body's scope; nothing is declared in the enclosing (file)
+                # scope. They get a scope of their own, which is merged into
+                # the body's: the lookahead past the list has already read
+                # the body's '{' and pushed its scope on top.
                 self._push_scope()
                 list_scope = self._scope_stack[-1]
                 param_decls = self._parse_declaration_list()
                 for i in range(len(self._scope_stack) - 1, 0, -1):
                     if self._scope_stack[i] is list_scope:
                         del self._scope_stack[i]
+                        if i < len(self._scope_stack):
+                            self._scope_stack[i].update(list_scope)
                         break
             if self._peek_type() != "LBRACE":
                 self._parse_error("Invalid function definition", decl.coord)
